@@ -224,6 +224,42 @@ def run(ctx):
     _check_arc_cache(ctx, mdl.func('path.Arc.length'))
     _check_path_cache(ctx, mdl.func('path.Path._calc_lengths'), kinds)
 
+    # ------------------------------------------------------------------ R16.9 every memo on a mutable segment is keyed
+    ctx.rule('R16.9', 'segment classes: an attribute stored outside __init__ (a memo) is only read under a guard on the current control '
+                      'points (bpoints()/hash(self)); the frozen table of known memos is checked by R16.3', 4)
+    KNOWN_MEMOS = {'_length_info', 'segment_length', 'segment_length_hash'}
+    for cname in ('Line', 'QuadraticBezier', 'CubicBezier', 'Arc'):
+        cls = mdl.cls('path.' + cname)
+        init = cls.method('__init__')
+        ctor_fields = {n.attr for n in ast.walk(init.node) if isinstance(n, ast.Attribute) and isinstance(n.ctx, ast.Store) and self_attr(n)}
+        memos = {}
+        for fi in cls.all_funcs():
+            if fi.name in ('__init__', '_parameterize'):
+                continue
+            for n in walk_no_nested(fi.node):
+                tgt = None
+                if isinstance(n, ast.Attribute) and isinstance(n.ctx, ast.Store) and self_attr(n):
+                    tgt = n.attr
+                elif isinstance(n, ast.Subscript) and isinstance(n.ctx, ast.Store) and self_attr(n.value):
+                    tgt = n.value.attr
+                if tgt and (tgt not in ctor_fields or tgt in KNOWN_MEMOS or tgt.startswith('_')) and tgt not in ('start', 'end', 'control', 'control1', 'control2'):
+                    memos.setdefault(tgt, []).append((fi, n))
+        unknown = sorted(set(memos) - KNOWN_MEMOS)
+        bad = []
+        for mname in unknown:
+            for fi in cls.all_funcs():
+                if fi.name == '__init__':
+                    continue
+                for n in walk_no_nested(fi.node):
+                    if isinstance(n, ast.Attribute) and isinstance(n.ctx, ast.Load) and self_attr(n, mname):
+                        st = enclosing_stmt(n)
+                        g = _conj_guards(st, fi.node)
+                        keyed = any(mentions(t, lambda x: (isinstance(x, ast.Call) and norm(x) in ('self.bpoints()', 'hash(self)'))) for t, pol in g)
+                        if not keyed:
+                            bad.append('%s L%d reads memo %s without a guard on the current control points' % (fi.qualname, n.lineno, mname))
+        ctx.record('R16.9', cls.qualname, 'unkeyed memos={%s}' % ','.join(sorted({b.split(' reads memo ')[1].split(' ')[0] for b in bad})), not bad,
+                   detail='; '.join(bad[:3]), where=where(init), sample={'memo_attributes': sorted(memos)})
+
     # ------------------------------------------------------------------ R16.4 reads after compute
     for fi in sorted(PathC.all_funcs(), key=lambda f: f.line):
         if fi.name in ('__init__', '_calc_lengths'):
@@ -584,6 +620,10 @@ def _foreign_writes(modules):
                 hits.append((m.relpath, node.lineno, '%s written outside Path: %s' % (name, norm(node)[:60])))
             elif name in SEG_PRIVATE and owner not in SEG_PRIVATE[name]:
                 hits.append((m.relpath, node.lineno, '%s written outside %s: %s' % (name, '/'.join(SEG_PRIVATE[name]), norm(node)[:60])))
+            elif name in PATH_PRIVATE and owner == 'Path' and not (isinstance(attr.value, ast.Name) and attr.value.id == 'self'):
+                # inside Path, the private state of ANOTHER path object is written: a transplanted cache is not keyed to
+                # that object's segments (order, orientation)
+                hits.append((m.relpath, node.lineno, '%s of another Path object written: %s' % (name, norm(node)[:60])))
             elif name in SEG_PRIVATE and not (isinstance(attr.value, ast.Name) and attr.value.id == 'self'):
                 # inside the owner, writes must go through self or through a fresh copy being re-keyed (R16.5)
                 pass
